@@ -145,6 +145,7 @@ class RefEd:
         self.out = []
         self.wa = True
         self.dirty = False
+        self.version = 0            # bumped by every splice (C15 caches the identity -> row map on it)
 
     # -- addresses --------------------------------------------------------------------------
     def find(self, pat, start, step):
@@ -225,6 +226,7 @@ class RefEd:
                 self.marks[m] = UNK
         self.lines[b:e] = new
         self.dirty = True
+        self.version += 1
 
     def clamp(self, v):
         return max(0, min(len(self.lines) - 1, v))
